@@ -3,6 +3,7 @@ package annotations
 import (
 	"regexp"
 	"strings"
+	"unicode"
 	"unicode/utf8"
 
 	"github.com/gopher-fleece/gleece/v2/common"
@@ -223,7 +224,12 @@ func parseCommentNode(parsingRegex *regexp.Regexp, comment gast.CommentNode) (At
 	var parsedProps map[string]any
 	if jsonPresent && jsonConfig != "" {
 		if err := json5.Unmarshal([]byte(jsonConfig), &parsedProps); err != nil {
-			return Attribute{}, true, err
+			// The properties group is greedy; a description that itself contains "})" gets swallowed into it.
+			// Before giving up, look for a shorter, complete JSON5 object that is directly followed by ")"
+			if !resplitGreedyProperties(text, matchIndices, &parsedProps) {
+				return Attribute{}, true, err
+			}
+			description, _ = getGroupString(comment.Text, matchIndices, 4)
 		}
 	}
 
@@ -235,6 +241,45 @@ func parseCommentNode(parsingRegex *regexp.Regexp, comment gast.CommentNode) (At
 		Description:     description,
 		Comment:         comment,
 	}, true, nil
+}
+
+// resplitGreedyProperties attempts to re-split an over-captured properties group (group 3) into a valid
+// JSON5 object and a trailing description (group 4).
+// On success, parsedProps is populated, matchIndices are adjusted in place and true is returned.
+func resplitGreedyProperties(text string, matchIndices []int, parsedProps *map[string]any) bool {
+	startByte, endByte, ok := getGroupOffsets(matchIndices, 3)
+	if !ok || endByte > len(text) {
+		return false
+	}
+
+	for closerIdx := startByte; closerIdx+1 < endByte; closerIdx++ {
+		if text[closerIdx] != '}' || text[closerIdx+1] != ')' {
+			continue
+		}
+
+		remainder := text[closerIdx+2:]
+		trimmedRemainder := strings.TrimLeftFunc(remainder, unicode.IsSpace)
+		if remainder != "" && len(trimmedRemainder) == len(remainder) {
+			// A description must be separated from the closing parenthesis by whitespace
+			continue
+		}
+
+		var candidate map[string]any
+		if err := json5.Unmarshal([]byte(text[startByte:closerIdx+1]), &candidate); err != nil {
+			continue
+		}
+
+		*parsedProps = candidate
+		matchIndices[7] = closerIdx + 1
+		if trimmedRemainder == "" {
+			matchIndices[8], matchIndices[9] = -1, -1
+		} else {
+			matchIndices[8], matchIndices[9] = len(text)-len(trimmedRemainder), len(text)
+		}
+		return true
+	}
+
+	return false
 }
 
 func getPropertiesRange(comment gast.CommentNode, matchIndices []int) common.ResolvedRange {
